@@ -226,6 +226,7 @@ func checkC16(p *Prog, res *Result, tier string) {
 	res.rule("C16-R6", "a Range answer is the backend's complete snapshot read: no key missing, duplicated or out of order because of partitioning or a retried scan (C13-R5/R6/R8)", 5)
 	res.rule("C16-R9", "a Range answer names the revision its data was read at: header and default read revision derive from one load of the committed revision taken before the scan (C06-R2), and the etcd translation hands the backend's header on", 6)
 	res.rule("C16-R10", "a watch starts exactly at the revision it names or is refused (so that the client re-lists): the resume revision derives from the request or the cache snapshot, and the empty-cache start uses the strict comparison (C05-R1/R10)", 4)
+	res.rule("C16-R13", "client-supplied range bounds are not built with the record encoder, whose order agrees with the order of user keys only for keys without a byte at or below the split byte (a value clause of C10 that matters for C16: the continuation key of a paginated list ends in a zero byte)", 1)
 	res.rule("C16-R12", "the write paths (create conflict, update, delete) read the latest state of the key: every call of the backend's internal get outside the read handlers passes revision 0", 3)
 	res.rule("C16-R11", "an etcd event that is rebuilt from another etcd event (the follower's proxy) keeps all of its fields, PrevKv included", 1)
 	res.rule("C16-R5", "the failure branch of update/delete answers with the key-value read after the failed write", 2)
@@ -670,6 +671,7 @@ func checkC16(p *Prog, res *Result, tier string) {
 	checkShimHeaders(p, lr, res, "C16-R9")
 	checkEventCopiesAreComplete(p, res, "C16-R11")
 	checkWritePathsReadLatest(p, r, res, "C16-R12")
+	checkClientBoundsEncoding(p, r, res, "C16-R13")
 	// ---- R10: a watch that cannot be served from its start revision is refused, not started past an event (C05-R10) ----
 	for _, o := range p.subResult("C05", tier).Obls {
 		// (C05-R18: .. and what is filtered against the start revision is the revision of the change, as in etcd)
